@@ -242,6 +242,11 @@ func (resp *Resp) next() error {
 	var err error
 	c := resp.client
 	req := resp.req
+	// a resumed or rewound response releases the throttle slot of its previous request first
+	if resp.throttleDone != nil {
+		resp.throttleDone()
+		resp.throttleDone = nil
+	}
 	// lookup reqHost entry
 	reqHost := c.getHost(req.Host)
 	// create sorted list of mirrors, based on backoffs, upstream, and priority
